@@ -1,12 +1,12 @@
 #!/bin/bash
 # wave_stage.sh <property> <k: a|b|c> <new seed id> : copy a sub-agent's deliverable /tmp/seedw5/<property>/out/<k>/ into seeded/<id>/
-p=$1; k=$2; id=$3; src=/tmp/seedw5/$p/out/$k; dst=/verif/seeded/$id
+p=$1; k=$2; id=$3; root=${4:-/tmp/seedw5}; src=$root/$p/out/$k; dst=/verif/seeded/$id
 mkdir -p $dst && cp -r $src/. $dst/ && python3 - "$dst" "$id" "$p" <<'PY'
 import json, sys, os
 dst, sid, prop = sys.argv[1:4]
 title = open(os.path.join(dst, "README.md")).readline().strip().lstrip("# ").strip() if os.path.exists(os.path.join(dst, "README.md")) else ""
 meta = {"id": sid, "property": prop, "change": title, "needs_to_manifest": "see README.md (written by the seeding sub-agent)",
-        "author": "independent sub-agent (wave 5) given only the property record and a scratch worktree", "confirmed_by": "PENDING confirmation", "confirmation": {}, "caught_by": [], "matrix": {}}
+        "author": "independent sub-agent given only the property record and a scratch worktree", "confirmed_by": "PENDING confirmation", "confirmation": {}, "caught_by": [], "matrix": {}}
 json.dump(meta, open(os.path.join(dst, "meta.json"), "w"), indent=1)
 PY
 ls $dst
